@@ -1,6 +1,7 @@
 (* driver for the extracted C15 model: one history per input line, one canonical result line per history.
    line:  H <cap> | op | op ...     ops: I x0 x1 y0 y1 id / B / Q x0 x1 y0 y1 / R x0 x1 y0 y1 id / T / N x0 x1 y0 y1 px py
-          S <cap> <n>               -> treeSize sliceCount sliceCapacity *)
+          S <cap> <n>               -> treeSize sliceCount sliceCapacity
+          V lo hi id ; ... | qlo qhi | ...   -> interval-tree query results *)
 let zi s = z_of_int (int_of_string s)
 let env a b c d = { x0 = zi a; x1 = zi b; y0 = zi c; y1 = zi d }
 let parse_op s = match words s with
@@ -22,6 +23,14 @@ let () =
   try while true do
     let line = input_line stdin in
     match String.split_on_char '|' line with
+    | hd :: qs when String.length hd > 0 && hd.[0] = 'V' ->
+      (* V lo hi id ; lo hi id ; ... | qlo qhi | ...   -> the model of SortedPackedIntervalRTree (C15/ITVDefs.itv_run) *)
+      let items = List.filter_map (fun it -> match words it with [a; b; c] -> Some ((zi a, zi b), zi c) | _ -> None)
+          (String.split_on_char ';' (String.sub hd 1 (String.length hd - 1))) in
+      let one q = match words q with
+        | [a; b] -> "[" ^ String.concat "," (List.map string_of_int (List.sort compare (List.map int_of_z (itv_run items (zi a) (zi b))))) ^ "] "
+        | _ -> "" in
+      print_endline (String.concat "" (List.map one qs))
     | hd :: ops ->
       (match words hd with
        | ["H"; cap] ->
